@@ -2594,7 +2594,7 @@ theorem foldl_step_forall (enum : Balance → Balance) (P : FXact → Prop) (ite
     simp only [List.foldl_cons]
     apply ih (fun env bucket x fx hx => hP env bucket x fx (List.mem_cons_of_mem _ hx))
     cases it with
-    | bucket a => exact h
+    | bucket _ a => exact h
     | xact x =>
       simp only [step]
       cases hf : finalize (observe st.env x) st.bucket enum x with
@@ -2665,6 +2665,29 @@ theorem exact_of_decimal (env : PrecEnv) (a : Amount) (hd : Decimal a) (hp : a.p
     Exact env a := by
   obtain ⟨h1, h2, k, hk⟩ := hd
   exact ⟨h1, h2, hp, k * (10 : Int) ^ (env a.comm - a.prec), by rw [hk, mkRat_rescale k _ _ hp]⟩
+
+/-- the bucket in force after a directive list is its last declaration (whatever
+    the spelling), or the one in force before when it declares none -/
+theorem foldl_step_bucket (enum : Balance → Balance) (items : List JItem) : ∀ st : JState,
+    (items.foldl (step enum) st).bucket =
+      (match lastBucket items with | some b => some b | none => st.bucket) := by
+  induction items with
+  | nil => intro st; rfl
+  | cons it its ih =>
+    intro st
+    simp only [List.foldl_cons]
+    rw [ih]
+    cases it with
+    | bucket how a =>
+      simp only [lastBucket, step]
+      cases lastBucket its <;> rfl
+    | xact x =>
+      have hb : (step enum st (.xact x)).bucket = st.bucket := by
+        simp only [step]
+        cases hf : finalize (observe st.env x) st.bucket enum x with
+        | ok fx => rfl
+        | error e => cases e <;> rfl
+      simp only [lastBucket, hb]
 
 /-! ### 10. stripping lot annotations (the shape of C05's `strip_den`) -/
 
